@@ -918,6 +918,8 @@ struct Expanded {
     divergences: u64,
     /// first history in which an emitted packet contained bytes of ANOTHER (earlier) packet
     first_earlier: Option<Vec<u8>>,
+    /// first history whose last result differs from the mirror's prediction
+    first_div: Option<String>,
 }
 
 #[derive(Clone, Copy)]
@@ -941,13 +943,14 @@ struct Totals {
     capped: bool,
     seen_classes: HashSet<String>,
     earlier_packet_witness: Option<Value>,
+    first_divergence: Option<String>,
     per_run: Vec<Value>,
 }
 
 const CHUNK: usize = 1 << 14;
 /// Safety valve: states that can no longer be merged (mirror diverged — only under a changed
 /// subject) grow like A^d; beyond this many per level they are not expanded further.
-const UNMERGED_CAP: usize = 150_000;
+const UNMERGED_CAP: usize = 20_000;
 
 fn key_of(mirror: &Mirror, mon: &Mon, budget: bool) -> u128 {
     let mut b = Vec::with_capacity(160);
@@ -1004,6 +1007,22 @@ fn expand(ctx: &Ctx, mode: &Mode, node: &Node, visited: &HashSet<u128>, prefilte
         let pred = m2.recv(f);
         let ok = m2.faithful(&pred, f, &out);
         if !ok {
+            if ex.first_div.is_none() {
+                let pd = match &pred {
+                    Pred::EmitFrame => "emit the frame's own payload".to_string(),
+                    Pred::EmitSlot(i, n) => format!("emit {n} bytes from slot {i}"),
+                    Pred::None => "Ok(None)".to_string(),
+                    Pred::Err(l) => format!("Err({l})"),
+                };
+                ex.first_div = Some(format!(
+                    "mtu {} Q {} history [{}]: real result {}, documented-behaviour mirror predicted {pd}{}",
+                    ctx.cfg.mtu,
+                    q,
+                    refs.iter().map(|f| f.name.as_str()).collect::<Vec<_>>().join(" , "),
+                    out.short(),
+                    if matches!((&pred, &out), (Pred::EmitSlot(..), Out::Emit { .. })) { " (or different bytes)" } else { "" }
+                ));
+            }
             ex.divergences += 1;
             *ex.outcomes.entry("mirror-divergence(no-merge)".into()).or_default() += 1;
         }
@@ -1072,6 +1091,9 @@ fn explore(run: &vpc::Run, ctx: &Ctx, mode: Mode, tot: &mut Totals) {
             for ex in exs {
                 executed += ex.executed;
                 tot.divergences += ex.divergences;
+                if tot.first_divergence.is_none() {
+                    tot.first_divergence = ex.first_div.clone();
+                }
                 transitions += ex.succ.len() as u64 + ex.merged_known;
                 for (c, n) in &ex.outcomes {
                     match outcomes.get_mut(c) {
@@ -1396,6 +1418,19 @@ pub fn run(args: &vpc::Args) -> ! {
     }
 
     let exhaustive = !tot.capped;
+    if tot.capped && run.violation_count() == 0 {
+        // The subject no longer behaves like the documented slot machine the de-duplication relies
+        // on; unmerged states were cut off, so the stated bound was NOT completed and no violation
+        // was seen in the explored part: this is not a verdict.
+        vpc::machinery_failure(&format!(
+            "C17: the real Defragmenter diverged from the harness mirror {} times (merge audits failed: {}); first: {}. \
+             States could not be merged and the exploration was cut off before the bound; no property violation was seen in the explored part. \
+             Update the mirror in vp-edgetun/src/c17.rs to the new behaviour.",
+            tot.divergences,
+            tot.audit_failures,
+            tot.first_divergence.clone().unwrap_or_default()
+        ));
+    }
     let bound = format!(
         "{} configurations (MTU {{{},{},1500,{}}} x packet-size variants x Q {{1,2}}), alphabet {} frames (8 honest of 4 packets with 1/2/3/2 frames + hostile); \
          ALL delivery sequences with repetition up to length {} (Q=1) / {} (Q=2{}) over the full alphabet, and up to length {} with at most {} hostile deliveries; \
@@ -1413,6 +1448,7 @@ pub fn run(args: &vpc::Args) -> ! {
         "bound": bound,
         "state_key": "128-bit hash of (mirror slot state incl. buffer provenance intervals, honest-monitor state); mirror checked against the real result on every transition",
         "mirror_divergences": tot.divergences,
+        "first_mirror_divergence": tot.first_divergence,
         "merge_audits": tot.audits,
         "merge_audit_failures": tot.audit_failures,
         "unmerged_state_cap_hit": tot.capped,
